@@ -49,6 +49,8 @@ pub struct Counters {
     pub reach_checks: u64,
     /// running hash of (tick, event, heap objects, gray objects) over all collector events
     pub schedule_hash: u64,
+    /// green threads dropped while their collector was idle / marking / sweeping
+    pub threads_dropped: [u64; 3],
 }
 
 #[derive(Clone, Debug)]
@@ -176,6 +178,16 @@ fn event(kind: u64, heap: usize, gray: usize) {
 
 pub(super) fn count_barrier_hit() {
     COUNTERS.with(|c| c.borrow_mut().barrier_hits += 1);
+}
+
+pub(super) fn count_thread_drop(state: &GcState) {
+    let i = match state {
+        GcState::Idle => 0,
+        GcState::Marking => 1,
+        GcState::Sweeping { .. } => 2,
+    };
+    // (a thread dropped while the OS thread unwinds may find the thread-local already gone)
+    let _ = COUNTERS.try_with(|c| c.borrow_mut().threads_dropped[i] += 1);
 }
 
 pub(super) fn count_swept() {
